@@ -65,5 +65,12 @@ for fid, commit, prop, checks, what in FIX:
 kf={"comment":"Genuine defects of cloudwego/sonic-rs confirmed by the checks. status=known entries are matched by (property, violation class prefix) and downgrade exactly those violations to KNOWN-FINDING lines; status=fixed entries suppress nothing (the check reports the violation again if it returns). Never written at run time.","findings":[]}
 for fid, commit, prop, checks, what in FIX:
     kf["findings"].append({"id":fid,"property":prop,"status":"fixed","commit":commit,"line":f"fixed: property={prop} {commit} {what}","what":what,"checks":checks})
+# status=known entries are maintained by hand: carry them over
+try:
+    prev=json.load(open("/verif/known_findings.json"))
+    kf["comment"]=prev.get("comment",kf["comment"])
+    kf["findings"].extend(f for f in prev.get("findings",[]) if f.get("status")!="fixed")
+except FileNotFoundError:
+    pass
 json.dump(kf,open("/verif/known_findings.json","w"),indent=1)
 print("done")
